@@ -470,7 +470,7 @@ func (st *Runtime) executeList(list *ListNode) (returnValue reflect.Value) {
 			if node.Pipe != nil {
 				v, safeWriter := st.evalPipelineExpression(node.Pipe)
 				if !safeWriter && v.IsValid() {
-					if v.Type().Implements(rendererType) {
+					if v.Type().Implements(rendererType) && !isNilInterface(v) {
 						v.Interface().(Renderer).Render(st)
 					} else {
 						_, err := fastprinter.PrintValue(st.escapeeWriter, v)
@@ -662,7 +662,7 @@ func (st *Runtime) executeInclude(node *IncludeNode) (returnValue reflect.Value)
 	if !name.IsValid() {
 		node.errorf("evaluating name of template to include: name is not a valid value")
 	}
-	if name.Type().Implements(stringerType) {
+	if name.Type().Implements(stringerType) && !isNilInterface(name) {
 		templatePath = name.Interface().(fmt.Stringer).String()
 	} else if name.Kind() == reflect.String {
 		templatePath = name.String()
@@ -1649,6 +1649,13 @@ func indirectInterface(v reflect.Value) reflect.Value {
 		return v.Elem()
 	}
 	return v
+}
+
+// isNilInterface reports whether v is a nil value of an interface type (a field declared as Renderer,
+// Ranger or fmt.Stringer that was never set): its type implements the interface, but there is no
+// value that could be asserted to it.
+func isNilInterface(v reflect.Value) bool {
+	return v.Kind() == reflect.Interface && v.IsNil()
 }
 
 // indirectEface is the same as indirectInterface, but only indirects through v if its type
